@@ -238,6 +238,7 @@ def run(tier, rep):
                               '%s: |result - exact| = %.3g but error_estimate = %.3g (K = %g, floor %.3g)' % (name, err, e, K_HONEST, floor))
                 break
     sres, stage_worst = stage_honesty(rep)
+    bres, nbest = best_stage(rep, tier)
     # multivariate classes
     mres = vlib.tlc('MC_Multi', cfg_text=open(vlib.SPEC + '/MC_Multi.cfg').read().replace('Ns = {1, 2, 3, 5, 8}', 'Ns = {1, 2, 3, 5}').replace('Ms = {1, 2, 3, 6}', 'Ms = {1, 3}').replace('Ks = {0, 1, 2, 4}', 'Ks = {0, 2}'), tag='MC_Multi_c02', timeout=1800)
     vlib.require_ok(mres)
@@ -292,13 +293,88 @@ def run(tier, rep):
         for rt_, nm in ratios[:25]:
             print('SURVEY ratio %.3g | %s' % (rt_, nm[:150]))
         print('SURVEY count beyond floor', len(ratios))
-    states, trans, per = vlib.merge_tlc([pres, mres, sres] + results)
+    states, trans, per = vlib.merge_tlc([pres, mres, sres] + bres + results)
     cov = dict(states=states, transitions=trans, traces_validated_against_impl=nrec, honesty_checks=nchk, records_checked=nrec,
                beyond_floor=len(ratios), outside_tame_domain=untamed, worst_error_over_estimate=max([r_[0] for r_ in ratios] + [0.0]),
                samples=[dict(prog=uniq[12]['prog'], c=uniq[12]['c']), dict(pipeline=pres.records[100])], evaluations=nchk,
                distinct_nontrivial=len(ratios) + nrec // 2,
                rule='Pipeline: every (S<=26, rule length, Richardson terms, columns) exhaustively; replay: the C01 program/config sample (including cases outside the tame domain) and MC_Multi cases for Gradient/Jacobian/Hessdiag/Hessian; non-trivial = result beyond the accuracy floor (the estimate has to cover it)',
-               K=K_HONEST, K_stage=ENV['honesty']['K_stage'], stage_sequences=len(sres.records), stage_worst_error_over_estimate=stage_worst, tlc=per)
+               K=K_HONEST, K_stage=ENV['honesty']['K_stage'], stage_sequences=len(sres.records), selection_tables_replayed=nbest, stage_worst_error_over_estimate=stage_worst, tlc=per)
     assum = ['honesty bound |err| <= K*error_estimate + floor*sigma with K and floor from envelopes.json',
              'record clauses use public information only: info tuple, d.step(...) regenerated, rule length from the object\'s LogRule']
     return cov, assum
+
+
+def best_stage(rep, tier):
+    """The selection stage (_add_error_to_outliers -> _get_arg_min -> _get_best_estimate) against its
+    transcription spec/BestEstimate.tla: every table TLC enumerates, as a single column, as columns of
+    one matrix (per-column independence), and as real/imaginary parts of a complex column."""
+    from fractions import Fraction as Fr
+    from numdifftools.limits import _Limit
+    cfg = open(vlib.SPEC + '/MC_Best.cfg').read()
+    res = vlib.tlc('MC_Best', cfg_text=cfg.replace('Ns = {3, 4, 5}', 'Ns = {3, 4}' if tier == 'quick' else 'Ns = {3, 4, 5}'), timeout=3000)
+    vlib.require_ok(res)
+    # longer tables: random behaviours of the same specification
+    sim = vlib.tlc('MC_Best', cfg_text=cfg.replace('Ns = {3, 4, 5}', 'Ns = {5, 6, 7}' if tier == 'quick' else 'Ns = {6, 7, 8, 9}'), simulate='num=%d' % (500 if tier == 'quick' else 6000), depth=3,
+                   seed=vlib.seed_from_env() + 5, tag='MC_Best_sim', timeout=3000)
+    vlib.require_ok(sim)
+    if not res.records or not sim.records:
+        raise vlib.MachineryError('MC_Best emitted no tables')
+    recs = [r for r in res.records + sim.records if r['valid']]
+    fl = lambda q: q[0] / q[1]
+    n = 0
+
+    def call(der, err):
+        steps = np.outer(2.0 ** -np.arange(der.shape[0]), np.ones(der.shape[1]))
+        with np.errstate(all='ignore'):
+            val, info = _Limit._get_best_estimate(der.copy(), err.copy(), steps, (der.shape[1],))
+        return np.asarray(val), np.asarray(info.error_estimate), np.asarray(info.index), np.asarray(info.final_step), steps
+
+    byN = {}
+    for r in recs:
+        byN.setdefault(len(r['der']), []).append(r)
+    for N, lst in sorted(byN.items()):
+        # all tables of this length as columns of one matrix, in chunks (also decides per-column independence)
+        for lo in range(0, len(lst), 257):
+            chunk = lst[lo:lo + 257]
+            der = np.array([[fl(q) for q in r['der']] for r in chunk]).T
+            err = np.array([[fl(q) for q in r['err']] for r in chunk]).T
+            try:
+                val, est, idx, fstep, steps = call(der, err)
+            except Exception as ex:
+                rep.violation('best-raises', dict(N=N, chunk=lo), 'the selection stage raised %r on a %dx%d table' % (ex, N, len(chunk)))
+                continue
+            rows = np.asarray(idx) // len(chunk) if np.ndim(idx) else np.array([idx // len(chunk)])
+            for j, r in enumerate(chunk):
+                n += 1
+                want_v, want_e = fl(r['value']), fl(r['error'])
+                row = int(np.unravel_index(int(np.ravel(idx)[j]), der.shape)[0])
+                col = int(np.unravel_index(int(np.ravel(idx)[j]), der.shape)[1])
+                if col != j:
+                    rep.violation('best-column', dict(der=r['der'], err=r['err'], column=j, picked_column=col), 'column %d of the table took its estimate from column %d' % (j, col))
+                    continue
+                if row != r['row'] or val[j] != want_v or abs(est[j] - want_e) > 1e-12 * max(1.0, want_e) or fstep[j] != steps[row, j]:
+                    rep.violation('best-row', dict(der=r['der'], err=r['err'], spec=dict(row=r['row'], value=want_v, error=want_e), code=dict(row=row, value=float(val[j]), error=float(est[j]), final_step=float(fstep[j]))),
+                                  'estimates %s with errors %s: the specification selects row %d (value %g, penalised error %g), the code row %d (value %g, error %g, final step %g)' % (
+                                      [fl(q) for q in r['der']], [fl(q) for q in r['err']], r['row'], want_v, want_e, row, val[j], est[j], fstep[j]))
+        # complex column: penalties of real and imaginary parts add; argmin recomputed here from the spec's penalties
+        rnd = random.Random(N)
+        for _ in range(400 if tier == 'quick' else 3000):
+            a, b = rnd.choice(lst), rnd.choice(lst)
+            tot = [Fr(*ea) + Fr(*pa) + Fr(*pb) for ea, pa, pb in zip(a['err'], a['pen'], b['pen'])]
+            mn = min(tot)
+            ties = [i for i, t in enumerate(tot) if t == mn]
+            wrow = ties[len(ties) // 2]
+            der = (np.array([fl(q) for q in a['der']]) + 1j * np.array([fl(q) for q in b['der']])).reshape(-1, 1)
+            err = np.array([fl(q) for q in a['err']]).reshape(-1, 1)
+            try:
+                val, est, idx, fstep, steps = call(der, err)
+            except Exception as ex:
+                rep.violation('best-raises:complex', dict(re=a['der'], im=b['der']), 'the selection stage raised %r on a complex column' % (ex,))
+                continue
+            n += 1
+            row = int(np.ravel(idx)[0])
+            if row != wrow or abs(est[0] - float(mn)) > 1e-12 * max(1.0, float(mn)) or val[0] != der[wrow, 0]:
+                rep.violation('best-row:complex', dict(re=a['der'], im=b['der'], err=a['err'], spec=dict(row=wrow, error=float(mn)), code=dict(row=row, error=float(est[0]))),
+                              'complex estimates %s with errors %s: the specification selects row %d (penalised error %g), the code row %d (error %g)' % (der.ravel().tolist(), err.ravel().tolist(), wrow, float(mn), row, est[0]))
+    return [res, sim], n
